@@ -32,6 +32,7 @@ struct TList {
 	static Handle rPrepend(R & r, int id) { return r.prepend(Fn(id)); }
 	static Handle rInsert(R & r, int id, const Handle & before) { return r.insert(Fn(id), before); }
 	static bool rRemove(R & r, const Handle & h) { return r.remove(h); }
+	static bool removeDirect(T & t, const Handle & h) { return t.remove(h); }
 	static void setTarget(R & r, T & t) { r.setCallbackList(t); }
 	static void trigger(T & t) { t(1); }
 #ifndef VERIF_NO_PRIVATE
@@ -50,6 +51,7 @@ struct TDisp {
 	static Handle rPrepend(R & r, int id) { return r.prependListener(3, Fn(id)); }
 	static Handle rInsert(R & r, int id, const Handle & before) { return r.insertListener(3, Fn(id), before); }
 	static bool rRemove(R & r, const Handle & h) { return r.removeListener(3, h); }
+	static bool removeDirect(T & t, const Handle & h) { return t.removeListener(3, h); }
 	static void setTarget(R & r, T & t) { r.setDispatcher(t); }
 	static void trigger(T & t) { t.dispatch(3, 1); }
 #ifndef VERIF_NO_PRIVATE
@@ -68,6 +70,7 @@ struct TQueue {
 	static Handle rPrepend(R & r, int id) { return r.prependListener(3, Fn(id)); }
 	static Handle rInsert(R & r, int id, const Handle & before) { return r.insertListener(3, Fn(id), before); }
 	static bool rRemove(R & r, const Handle & h) { return r.removeListener(3, h); }
+	static bool removeDirect(T & t, const Handle & h) { return t.removeListener(3, h); }
 	static void setTarget(R & r, T & t) { r.setDispatcher(t); }
 	static void trigger(T & t) { t.enqueue(3, 1); t.process(); }
 #ifndef VERIF_NO_PRIVATE
@@ -164,6 +167,14 @@ struct Harness {
 		handleOf[id] = h; mr[i].owned.insert(id);
 	}
 	void opAddDirect(int t) { int id = newId(t, false); ctx.log(fmt("target %d: direct append -> #%d", t, id)); handleOf[id] = A::addDirect(*target[t], id); attached[t].push_back(id); }
+	// removal straight on the target, behind the removers' backs (the record a remover keeps for that listener expires)
+	void opRemoveDirect(int t, int id) {
+		bool got = A::removeDirect(*target[t], handleOf[id]);
+		ctx.log(fmt("target %d: direct remove(#%d%s) -> %d", t, id, viaRemover[id] ? ", added through a remover" : "", (int)got));
+		attached[t].erase(std::remove(attached[t].begin(), attached[t].end(), id), attached[t].end());
+		for(int i = 0; i < 3; ++i) mr[i].owned.erase(id);
+		if(!got) ctx.fail("direct-remove-result", fmt("removing the attached listener #%d directly from target %d returned false", id, t));
+	}
 	void opRemoveVia(int i, int id, const char * what) {
 		bool expect = mr[i].owned.count(id) && std::find(attached[mr[i].target].begin(), attached[mr[i].target].end(), id) != attached[mr[i].target].end();
 		bool got = A::rRemove(*rem[i], handleOf[id]);
@@ -185,7 +196,7 @@ struct Harness {
 	void opDestroyAll() { ctx.log("destroy all removers"); for(int i = 0; i < 3; ++i) if(mr[i].alive) { rem[i].reset(); detachOwned(i); mr[i].alive = false; removerGone(i); } }
 
 	bool usable(int i) const { return mr[i].alive && mr[i].target >= 0 && !mr[i].movedFrom; }
-	int menu() const { return 6 + 3 + 3 + 3 + 6 + 9 + 2 + 9 + 9 + 9 + 3 + 1; }
+	int menu() const { return 6 + 3 + 3 + 3 + 6 + 9 + 2 + 9 + 9 + 9 + 3 + 4 + 1; }
 	void topOp(Bfs & b, int op) {
 		if(op < 6) { int i = op / 2, t = op % 2; if(mr[i].alive) b.skip(); opConstruct(i, t); return; } op -= 6;
 		if(op < 3) { if(mr[op].alive) b.skip(); opDefault(op); return; } op -= 3;
@@ -208,6 +219,13 @@ struct Harness {
 		if(op < 9) { int i = op / 3, j = op % 3; if(mr[i].alive || !mr[j].alive || i == j) b.skip(); opMoveCtor(i, j); return; } op -= 9;
 		if(op < 9) { int i = op / 3, j = op % 3; if(!mr[i].alive || !mr[j].alive || i == j) b.skip(); opMoveAssign(i, j); return; } op -= 9;
 		if(op < 3) { int i = op == 2 ? 1 : 0, j = op == 0 ? 1 : 2; if(!mr[i].alive || !mr[j].alive) b.skip(); opSwap(i, j); return; } op -= 3;
+		if(op < 4) {
+			int t = op / 2; bool via = op % 2 == 0; int id = -1;
+			for(int x : attached[t]) if((bool)viaRemover[x] == via && !inLimbo(x)) { id = x; break; }
+			if(id < 0) b.skip();
+			opRemoveDirect(t, id);
+			return;
+		} op -= 4;
 		bool any = false; for(int i = 0; i < 3; ++i) any = any || mr[i].alive;
 		if(!any) b.skip();
 		opDestroyAll();
@@ -286,15 +304,15 @@ static struct Register {
 	Register() {
 		Cfg c;
 #if SEL(0)
-		addUnit<TList<MT> >("C15/CallbackList/multi", 0, c, 5, 9);
+		addUnit<TList<MT> >("C15/CallbackList/multi", 0, c, 5, 8);
 		addUnit<TList<VThreading> >("C15/CallbackList/vmutex", 0, c, 4, 9);
 #endif
 #if SEL(1)
-		addUnit<TDisp<MT> >("C15/EventDispatcher/multi", 0, c, 5, 9);
-		addUnit<TDisp<ST> >("C15/EventDispatcher/single", 1, c, 5, 9);
+		addUnit<TDisp<MT> >("C15/EventDispatcher/multi", 0, c, 5, 8);
+		addUnit<TDisp<ST> >("C15/EventDispatcher/single", 1, c, 5, 8);
 #endif
 #if SEL(2)
-		addUnit<TQueue<MT> >("C15/EventQueue/multi", 0, c, 5, 9);
+		addUnit<TQueue<MT> >("C15/EventQueue/multi", 0, c, 5, 8);
 #endif
 	}
 } reg;
